@@ -216,6 +216,10 @@ func run(c *fw.Ctx, idx int) {
 		trickleCase(c, idx)
 		return
 	}
+	if idx < 2*ntr {
+		identicalRepinCase(c, idx)
+		return
+	}
 	if idx%4 == 3 {
 		multiReplica(c, idx)
 		return
